@@ -186,6 +186,7 @@ def classify_lzma2_overrun(H, coder, data):
 
 
 KEY_OVERRUN = "C06:lzma2-chunk-overrun"
+MAX_REPORTS = 25   # replay files written per run; further differences are only counted
 
 
 class Harness:
@@ -916,7 +917,9 @@ def oracle(ctx, H):
         if src.endswith((".xz", ".lzma", ".lz")):
             src = "tests/files/" + src.split("-")[0] + "-*" + (":" + s["tag"].split(":")[1] if ":" in s["tag"] else "")
         ctx.count("source:" + src)
-        if diffs:
+        if diffs and nviol >= MAX_REPORTS:
+            ctx.count("violations-not-written-out (more than %d)" % MAX_REPORTS)
+        elif diffs:
             for dm in re.finditer(r" diff=(\S+) (\[[^\]]*\])", o):
                 sl = dm.group(1)
                 runs_ = [(s["coder"], s["act"], "W"), (s["coder"], s["act"], sl)]
@@ -951,7 +954,9 @@ def oracle(ctx, H):
         ctx.cov["evaluations"] += len(rs)
         ctx.count("group:" + g["tag"].split(":")[0], len(rs))
         bad = [i for i in range(1, len(rs)) if not same(rs[0], rs[i], g["cmp"])]
-        if bad:
+        if bad and nviol >= MAX_REPORTS:
+            ctx.count("violations-not-written-out (more than %d)" % MAX_REPORTS)
+        elif bad:
             i = bad[0]
             runs_ = [g["members"][0], g["members"][i]]
             differs, res = confirm(H, g["data"], g["cmp"], runs_)
